@@ -32,6 +32,8 @@ def log(*a):
 
 
 def _tier_ok(h, tier):
+    if h.get("tier") == "dev":       # development-only attempts (known not to terminate): run by neither tier
+        return False
     return tier == "thorough" or h.get("tier", "quick") == "quick"
 
 
@@ -426,7 +428,7 @@ def main(argv):
         wd = tempfile.mkdtemp(prefix="fir-verif.")
         try:
             info = kani.build_crate(wd, [(u["id"], u["kani"])])
-            hs = [h for h in u["kani"]["harnesses"] if (not a.filter or a.filter in h["name"]) and (a.tier == "thorough" or h.get("tier", "quick") == "quick")]
+            hs = [h for h in u["kani"]["harnesses"] if (not a.filter or a.filter in h["name"]) and (_tier_ok(h, a.tier) or (a.filter and h.get("tier") == "dev"))]
             if a.thorough_only:
                 PR = registry.props()
 
